@@ -795,6 +795,15 @@ func mon07Case(w *vlog.W, a *wargs, id int, rng *rand.Rand, opts harness.Options
 			}
 			calls[rng.Intn(len(calls))]()
 			w.Count("obs_view_calls", 1)
+			// ... nor may it leave anything behind in the view ledger's working set: what the next read-only call
+			// (or anybody reading through that ledger) sees is the committed state. The caller of the harness's
+			// views never sends a real transaction: its committed nonce is 0 and it owns nothing.
+			qa := harness.DetKey("query-account").Addr
+			if n, bal := world.R.ViewL.GetNonce(qa), world.R.ViewL.GetBalance(qa); n != 0 || bal.Sign() != 0 {
+				viol("view:working-set-left-behind", fmt.Sprintf("after a read-only call the view ledger answers nonce %d, balance %s for the caller; committed: nonce 0, balance 0", n, bal), nil)
+			}
+			world.R.ViewL.Clear()
+			w.Count("obs_view_ledger_readbacks", 1)
 			afterS, afterC := world.R.DumpState(), world.R.DumpChain()
 			metaA := world.R.L.GetChainMeta()
 			if d := diffDumps(beforeS, afterS, nil); len(d) > 0 {
